@@ -141,6 +141,11 @@ def run_case(case):
                     done = True
                     break
         if not done:
+            # a large batch (300 agents = the four base agents cycled): sizes beyond 2^8
+            idx = tuple(j % 4 for j in range(300))
+            if not compare(idx, run(idx), "batch of 300 agents (base agents cycled)"):
+                done = True
+        if not done:
             names = list(base)
             orders = list(itertools.permutations(names)) if len(names) <= 3 else [tuple(names[i:] + names[:i]) for i in range(len(names))] + [tuple(reversed(names))]
             for o in orders[1:]:
